@@ -234,6 +234,11 @@ func ParseTokenParam(buf []byte, offs int, param *PTokParam,
 				return i, ErrHdrBadChar
 			*/
 			default:
+				if c == term && term != 0 && param.state == paramFNxt {
+					// separator followed by the terminator (empty last param)
+					param.state = paramFIN
+					return i, ErrHdrOk
+				}
 				if c == sep {
 					// do nothing, allow empty params, just skip them
 					break
